@@ -39,8 +39,10 @@ CLAIMS = {
     technique="Lean 4 proof (algebraic laws of the line reader) + differential correspondence"),
  "C10": dict(
     text="Theorems (Props/C10): per bucket, the records kept by the listing have pairwise distinct keys; every listed "
-         "entry is what a lookup of its key returns; everything a lookup finds is listed (for records whose integrity "
-         "parses — all that insert writes). Correspondence: listings compared item by item with lookups after every step "
+         "entry is what a lookup of its key returns; everything a lookup finds is listed, unconditionally (records whose "
+         "integrity does not parse are dropped by both, before de-duplication). Props/C10x (Lemmas/ListRefine): on a tidy "
+         "healthy cache the listing program returns, for every bucket, exactly the live entries of the abstract index map - "
+         "after ANY operation history from the empty cache. Correspondence: listings compared item by item with lookups after every step "
          "of random histories.",
     note=TB + "the hash-set iteration order is abstracted to a list order; listing walks files while lookup hashes the key: "
          "agreement across buckets relies on records sitting in the bucket of their key (true of everything insert writes).",
@@ -107,7 +109,11 @@ CLAIMS.update({
          "own record format and any hash function): after a kill at ANY call of an index insertion, a removal or a whole keyed "
          "write, torn at ANY byte - or under any fault plan - the store is valid and every lookup in the key's bucket answers "
          "exactly as before the operation or exactly as after the complete append of its one well-formed record; keys other "
-         "than the operation's key answer as before; keyed_write_ok_is_new ties 'new' to what a successful write leaves. Tie: torn-append "
+         "than the operation's key answer as before; keyed_write_ok_is_new ties 'new' to what a successful write leaves. "
+         "RECOVERABILITY (Props/C04x, Lemmas/CrashRefine): ANY operation killed at any call / torn at any length leaves a "
+         "healthy cache whose abstract state is old, new, or (keyed write) old index over a store that already holds the new "
+         "content; any later operation sequence answers exactly as the abstract map says from there; a later write of any key "
+         "succeeds and reads back; the interrupted key reads its old value or exactly the new data. Tie: torn-append "
          "buckets at sampled byte lengths incl. multi-byte UTF-8 via the reference encoder, real SIGKILL sweeps with "
          "old-or-new / other-keys / visible=>readable / later-write monitors.",
     note=TB + "TornLaws.prefix_none (a strict prefix of a record line does not decode) is PROVED for the concrete codec and "
@@ -145,7 +151,9 @@ CLAIMS.update({
          "writes): content store valid afterwards; the key's bucket is old bytes + at most a prefix of the new record "
          "(whole on success); an ok answer implies the content path exists and the record is appended whole (no false "
          "success); a read that answers ok passes the integrity check; a writer that never reaches the index phase leaves "
-         "the index untouched; every call stays inside the cache. Tie: strace errno injection into every syscall class of "
+         "the index untouched; every call stays inside the cache. Props/C13x (Lemmas/CrashRefine): a keyed write under ANY "
+         "fault plan leaves a healthy cache in an admissible abstract state (old / new / content published only), leaves "
+         "every other key and address alone, and any later operation sequence answers as the abstract map says. Tie: strace errno injection into every syscall class of "
          "write/read/metadata/copy/remove/list with result, post-state, retry and other-entry monitors.",
     note=TB + "retry-succeeds and no-panic are judged by the injection leg (impl-only monitor), not proved; the model's "
          "fault granularity is one model call = a group of syscalls.",
@@ -176,7 +184,10 @@ CLAIMS.update({
          "kill point, under every fault), appends exactly one tombstone, after which that key - and only that key - is not "
          "found, and buckets of other keys are not touched; remove_hash aims one mutating call at exactly that content "
          "path and on success it is absent; remove_fully aims only at the current entry's content path and the key's "
-         "bucket; clearing removes everything below each child and stays inside the cache. Correspondence: histories mixing "
+         "bucket; clearing removes everything below each child and stays inside the cache. Props/C09x (Lemmas/ListRefine): "
+         "remove_fully refines 'drop the key's whole bucket and the content it named'; clear leaves the empty cache, from "
+         "which every operation sequence again behaves like the abstract map; the extended refinement theorem covers "
+         "listings, full removals and clears. Correspondence: histories mixing "
          "writes with all four removals over shared-content keys, judged by a dictionary model and the Lean model.",
     note=TB + "remove_fully of a key whose bucket also holds another key's records (SHA-1 collision or foreign writer) "
          "removes those too - the stated exception; the order in which clear removes children is readdir order (not modelled).",
